@@ -302,7 +302,7 @@ def run(ctx, fr, model_available=True, mods=None):
     for i, m in enumerate(mods):
         c = {'src': render(m)}
         if i % 5 == 0:
-            c.update(caller=render_caller(m), callee_src=render(m), callee_stripped=render(m, strip=True))
+            c.update(caller=render_caller(m), callee_src=render(m), callee_stripped=render(m, strip=True), dotted=rnd.random() < .4)
         if i % 3 == 1:
             # the same module with one declaration enlarged: findings may only shrink
             m2 = json.loads(json.dumps(m))
